@@ -317,7 +317,7 @@ func (x *runner) scenarioSpecificChecks(stage string) {
 		}
 	}
 	// --- checkpoint advance (single honest node serving the whole sync) ---------------
-	if stage == "end" && len(s.CheckpointHeights) > 0 && len(s.Nodes) == 1 && s.Nodes[0].Kind == "honest" && !s.DisableCheckpoints && s.InitialStore == "genesis" && s.Nodes[0].DisconnectAtMsg == 0 && s.Nodes[0].DropAfterHeight == 0 {
+	if stage == "end" && len(s.CheckpointHeights) > 0 && len(s.Nodes) == 1 && s.Nodes[0].Kind == "honest" && !s.DisableCheckpoints && s.InitialStore == "genesis" && !s.Nodes[0].losesFirstConnection() {
 		x.rig.Log.mu.Lock()
 		ghs := append([]GetHeadersSeen(nil), x.rig.Log.GetHdr...)
 		x.rig.Log.mu.Unlock()
